@@ -27,6 +27,10 @@ TWO_ST = C.TWO_STREET
 HILO = ('KuhnAny', 'JQLow')
 
 
+NO_RUNOUT_AUTO = ['ANTE_POSTING', 'BET_COLLECTION', 'BLIND_OR_STRADDLE_POSTING', 'CARD_BURNING', 'HOLE_DEALING', 'BOARD_DEALING',
+                  'HOLE_CARDS_SHOWING_OR_MUCKING', 'HAND_KILLING', 'CHIPS_PUSHING', 'CHIPS_PULLING']
+
+
 def _j(family, cfg, **kw):
     j = {'family': family, 'cfg': cfg}
     j.update(kw)
@@ -73,7 +77,8 @@ def jobs(tier, seed):
                     out.append(_j('chips-' + chips, C.custom(stacks, TWO_ST, chips=chips, **base)))
                     out.append(_j('chips-' + chips + '-rake', C.custom(
                         stacks, TWO_ST, chips=chips, rake=('pct', 1, 4, None, False), **base)))
-                out.append(_j('cash-runouts', C.custom(stacks, TWO_ST, mode='cash', **base),
+                # run-out choice left to the players (it is decided as None = one run-out when automated)
+                out.append(_j('cash-runouts', C.custom(stacks, TWO_ST, mode='cash', autos=NO_RUNOUT_AUTO, **base),
                               opts={'runouts': (None, 1, 2, 3)}))
                 for au in (['NONE'] + MIXED_AUTOS if (thorough or boards == 1) else ['NONE']):
                     out.append(_j('automation', C.custom(stacks, TWO_ST, autos=au, **base)))
@@ -121,6 +126,9 @@ def run_job(job):
 
 def sanity(agg, counters, fam, tier):
     msgs = []
+    for k in ('final_states_with_3+_boards', 'final_states_of_split_games'):
+        if counters.get(k, 0) == 0:
+            msgs.append(f'{k} == 0')
     if counters.get('multi_pot_updates', 0) == 0:
         msgs.append('no state with side pots was reached')
     if counters.get('raked_updates', 0) == 0:
